@@ -1,6 +1,6 @@
 (* Line-oriented co-process around the extracted model: one request per line,
    one response line per request. *)
-open Fitmodel
+module F = Fitmodel
 open Conv
 
 let handlers : (string, string list -> string) Hashtbl.t = Hashtbl.create 64
@@ -10,20 +10,20 @@ let () =
   register "ping" (fun _ -> "pong");
   register "crc_upd" (fun a ->
       match a with
-      | [ c; d ] -> string_of_int (int_of_n (update_byte (n_of_int (int_of_string c)) (n_of_int (int_of_string d))))
+      | [ c; d ] -> string_of_int (int_of_n (F.update_byte (n_of_int (int_of_string c)) (n_of_int (int_of_string d))))
       | _ -> "ERR args");
   register "crc_arc" (fun a ->
       match a with
-      | [ c; d ] -> string_of_int (int_of_n (arc_step (n_of_int (int_of_string c)) (n_of_int (int_of_string d))))
+      | [ c; d ] -> string_of_int (int_of_n (F.arc_step (n_of_int (int_of_string c)) (n_of_int (int_of_string d))))
       | _ -> "ERR args");
   register "crc_sum" (fun a ->
-      match a with [ h ] -> string_of_int (int_of_n (checksum (bytes_of_hex h))) | _ -> "ERR args");
+      match a with [ h ] -> string_of_int (int_of_n (F.checksum (bytes_of_hex h))) | _ -> "ERR args");
   register "crc_arcsum" (fun a ->
-      match a with [ h ] -> string_of_int (int_of_n (arc (bytes_of_hex h))) | _ -> "ERR args");
+      match a with [ h ] -> string_of_int (int_of_n (F.arc (bytes_of_hex h))) | _ -> "ERR args");
   (* crc_parts p1 p2 ... : New(); Write(p1); Write(p2)...; Sum16 *)
   register "crc_parts" (fun a ->
-      let h = List.fold_left (fun h p -> crc_write h (bytes_of_hex p)) crc_new a in
-      string_of_int (int_of_n (crc_sum16 h)));
+      let h = List.fold_left (fun h p -> F.crc_write h (bytes_of_hex p)) F.crc_new a in
+      string_of_int (int_of_n (F.crc_sum16 h)));
   (* crc_range c0 c1 : all transitions (c, d), c0 <= c < c1, d < 256, as a digest:
      prints xor-fold and sum so that the harness can compare in bulk *)
   register "crc_row" (fun a ->
@@ -32,7 +32,7 @@ let () =
           let c = n_of_int (int_of_string c) in
           let b = Buffer.create 2048 in
           for d = 0 to 255 do
-            Buffer.add_string b (Printf.sprintf "%04x" (int_of_n (update_byte c (n_of_int d))))
+            Buffer.add_string b (Printf.sprintf "%04x" (int_of_n (F.update_byte c (n_of_int d))))
           done;
           Buffer.contents b
       | _ -> "ERR args");
@@ -42,7 +42,7 @@ let () =
           let c = n_of_int (int_of_string c) in
           let b = Buffer.create 2048 in
           for d = 0 to 255 do
-            Buffer.add_string b (Printf.sprintf "%04x" (int_of_n (arc_step c (n_of_int d))))
+            Buffer.add_string b (Printf.sprintf "%04x" (int_of_n (F.arc_step c (n_of_int d))))
           done;
           Buffer.contents b
       | _ -> "ERR args")
